@@ -1,0 +1,67 @@
+//go:build verif
+
+package fasthttp
+
+// C01 (request framing), request-head bookkeeping: contracts for header.go, checked by /verif/gocv
+// (comment-only; compiled to nothing).
+//
+// RequestHeader.parseHeaders is verified in skeleton mode. The ghosts record which framing fields the head carried,
+// independently of the function's own bookkeeping locals: they are set where a header name is recognised
+// (caseInsensitiveCompare against the name constant returning true).
+//
+// RFC 9112 section 6: a request with both Content-Length and Transfer-Encoding, or with a Transfer-Encoding whose
+// final coding is not chunked, or whose head is rejected, is never followed by another request on the connection,
+// i.e. parseHeaders leaves connectionClose set.
+
+//@ func RequestHeader.parseHeaders results n err
+//@   property C01
+//@   mode skeleton
+//@   stable h.disableSpecialHeader h.noHTTP11 h.secureErrorLogMessage h.disableNormalizing
+//@   ghost sawCL bool = false
+//@   ghost sawTE bool = false
+//@   ghost teChunked bool = false
+//@   on call caseInsensitiveCompare(a, b) -> r:
+//@     nohavoc
+//@     effect sawCL = sawCL || (r && sameSlice(b, strContentLength)); sawTE = sawTE || (r && sameSlice(b, strTransferEncoding)); teChunked = teChunked || (r && sameSlice(b, strChunked))
+//@   end
+//@   ensures[error-closes] err != nil ==> h.connectionClose
+//@   ensures[cl-and-te-closes] err == nil && sawCL && sawTE && !h.disableSpecialHeader ==> h.connectionClose
+//@   ensures[te-not-chunked-closes] err == nil && sawTE && !teChunked && !h.disableSpecialHeader ==> h.connectionClose
+//@   ensures[chunked-wins] err == nil && sawTE && teChunked && !h.disableSpecialHeader ==> h.contentLength == -1
+//@   loop 1:
+//@     invariant[chunked-recorded] teChunked && !h.disableSpecialHeader ==> h.contentLength == -1
+//@     invariant[not-chunked] !teChunked ==> h.contentLength != -1
+//@     invariant[cl-flag] sawCL == contentLengthSeen
+//@     invariant[te-flag] sawTE == transferEncodingSeen
+//@   on call headerScanner.next -> more:
+//@     havoc heap
+//@   on call header.SetTrailerBytes -> e:
+//@     nohavoc
+//@     modifies h.trailer
+//@   end
+
+// Helpers of the head parser.
+//@ func trimTrailingSpace results r
+//@   property C01 C08
+//@   pure
+//@   ensures[prefix] rgn(r) == rgn(old(s)) && off(r) == off(old(s)) && len(r) <= len(old(s))
+//@   ensures[trimmed] len(r) == 0 || (r[len(r)-1] != ' ' && r[len(r)-1] != 9)
+//@   ensures[only-blanks-dropped] forall j in [len(r), len(old(s))): old(s[j]) == ' ' || old(s[j]) == 9
+//@   loop 1:
+//@     invariant[prefix] rgn(s) == rgn(old(s)) && off(s) == off(old(s)) && len(s) <= len(old(s))
+//@     invariant[only-blanks-dropped] forall j in [len(s), len(old(s))): old(s[j]) == ' ' || old(s[j]) == 9
+
+// parseContentLength: exactly the all-digit strings whose value fits an int, with that value (on top of parseUintBuf).
+//@ func parseContentLength results v err
+//@   property C01 C30
+//@   pure
+//@   ensures[exact] err == nil ==> len(b) > 0 && alldigits(b, len(b)) && v == decval(b, len(b)) && v >= 0
+//@   ensures[errval] err != nil ==> v == -1
+//@   ensures[rejects-nondigits] len(b) == 0 || !alldigits(b, len(b)) ==> err != nil
+
+//@ func validHeaderValueByte
+//@   trusted
+//@   pure
+//@ func hasHeaderValue
+//@   trusted
+//@   pure
